@@ -284,6 +284,16 @@ func modeRoute(c *Ctx) {
 			c.Stat("notfound", 1)
 			if tr.opRuns > 0 {
 				c.Viol("misdispatch", "operation ran for a request that matches no template+method", in, "not found", tr.opKey)
+				// dispatched all the same: the path parameters are then still the
+				// segments at the template positions of the operation that ran (C05)
+				if op := c.OpByKey(tr.opKey); op != nil && tr.opRuns == 1 {
+					rs := splitSegs(strings.TrimPrefix(path, c.Base))
+					ts := splitSegs(op.Path)
+					for len(rs) < len(ts) {
+						rs = append(rs, "")
+					}
+					c.checkPathParams(in, tr.opKey, op.Path, rs[:len(ts)], tr)
+				}
 				return
 			}
 			if nfInstalled {
